@@ -642,7 +642,10 @@ pub fn check(
     // ---- what did reach stdout although a standard stream failed or stalled, or the process was
     // killed: output may be lost, but it is never wrong - a prefix of the right text (a writer
     // that starts over after a partial write prints its beginning twice)
-    if let Some(want) = pred.stdout_prefix_of.as_ref().filter(|_| inv.debug == 0 && pred.unmodelled.is_none()) {
+    // (only for a process that claims success: one that reports the trouble with a non-zero exit
+    // status may have gone on with its other inputs, leaving a hole - its output is not trusted by
+    // anybody; found by refactor R14, which does exactly that)
+    if let Some(want) = pred.stdout_prefix_of.as_ref().filter(|_| inv.debug == 0 && pred.unmodelled.is_none() && out.exit == Some(0)) {
         if !want.starts_with(&out.stdout) {
             let d = first_diff(&out.stdout, want);
             let id = if matches!(inv.shape, Shape::Stdin { .. }) { "I16.2-stdin-garbled" } else { "I16.1-stdout-garbled" };
